@@ -17,7 +17,16 @@ from miros.event import Event
 import miros.activeobject as ao_mod
 
 PID = "C13"
-OPS = [("start",), ("stop",), ("clear",), ("sub",), ("pub",), ("ao_start",), ("ao_post",)]
+OPS = [("start",), ("stop",), ("clear",), ("sub",), ("pub",), ("ao_start",), ("ao_post",), ("sub_bad",), ("pub_bad",)]
+
+
+class BrokenQueue:
+    """a subscriber whose queue cannot take an event: delivering to it kills the (fifo) delivery thread - the fault that
+    leaves the fabric with exactly one of its two threads"""
+
+    def append(self, item):
+        raise RuntimeError("broken subscriber queue")
+    appendleft = append
 
 
 def live_now(s):
@@ -56,6 +65,10 @@ class Seq(fabric.SeqHarness):
                 fab.subscribe(q0, Event(signal="A"))
             elif op[0] == "pub":
                 fab.publish(Event(signal="A", payload="p%d" % k))
+            elif op[0] == "sub_bad":
+                fab.subscribe(BrokenQueue(), Event(signal="X"), queue_type="fifo")
+            elif op[0] == "pub_bad":
+                fab.publish(Event(signal="X", payload="x%d" % k))
             elif op[0] == "ao_start":
                 a = H.new_ao("ao", state, start=False)
                 a.subscribe(Event(signal="A"))
@@ -88,6 +101,10 @@ def enabled(path):
             continue
         if op[0] == "ao_post" and not have_ao:
             continue
+        if op[0] == "sub_bad" and any(o[0] == "sub_bad" for o in path):
+            continue
+        if op[0] == "pub_bad" and not any(o[0] == "sub_bad" for o in path):
+            continue
         out.append(op)
     return out
 
@@ -96,6 +113,8 @@ def model(path):
     """per step: running, and for every publication label the [lo, hi] number of deliveries q0 / the active object
     must have seen by the end; ao status after each step"""
     running = False
+    fifo_dead = False            # the fifo delivery thread was killed by the broken subscriber and not restarted yet
+    bad = False                  # the broken subscriber is registered
     subs = set()
     ao = None                    # None | 'alive' | 'doomed' | 'unknown' | 'halted'
     pubs = {}                    # label -> {"q0": [lo, hi], "ao": [lo, hi]}
@@ -105,33 +124,40 @@ def model(path):
         op = tuple(op)
         if op[0] == "start":
             running = True
+            fifo_dead = False
             if ao == "doomed":
                 ao = "unknown"  # restarted before the object woke up: not constrained
         elif op[0] == "stop":
             running = False
+            fifo_dead = False
             if ao == "alive":
                 ao = "doomed"
+        elif op[0] == "sub_bad":
+            bad = True
+        elif op[0] == "pub_bad":
+            if running and bad and not fifo_dead:
+                fifo_dead = True
         elif op[0] == "clear":
+            bad = False
             subs.clear()                # (publications are delivered before the next op: nothing is waiting that was owed)
         elif op[0] == "sub":
             subs.add("q0")
         elif op[0] == "ao_start":
             # the object subscribes before start_at; start_at starts the fabric if it is not alive
-            if running:
-                ao = "alive"
-                subs.add("ao")
-            else:
-                running = True
-                ao = "alive"
-                subs.add("ao")
+            # (with one delivery thread dead is_alive() is False: start_at restarts the fabric)
+            running = True
+            fifo_dead = False
+            ao = "alive"
+            subs.add("ao")
         elif op[0] == "pub":
             lab = "A/p%d" % k
             e = {}
             for t in ("q0", "ao"):
-                if running and t in subs and (t == "q0" or ao == "alive"):
+                if running and not fifo_dead and t in subs and (t == "q0" or ao == "alive"):
                     e[t] = [1, 1]
-                elif t in subs or not running:
-                    e[t] = [0, 1]        # made while the fabric does not run, or to a halted/unknown object
+                elif t in subs or not running or fifo_dead:
+                    e[t] = [0, 1]        # made while the fabric does not (fully) run - it waits and may reach a later
+                    #                      subscriber - or to a halted/unknown object
                 else:
                     e[t] = [0, 0]
             pubs[lab] = e
@@ -144,7 +170,7 @@ def model(path):
                 ao = "halted"
             else:
                 posts[lab] = [0, 1]
-        per_step.append({"running": running, "ao": ao})
+        per_step.append({"running": running, "ao": ao, "fifo_dead": fifo_dead})
     return per_step, pubs, posts
 
 
@@ -158,8 +184,9 @@ def judge(path, ex):
             list(path), ex.verdict, blocked))]
     o = ex.obs
     out = []
-    if o["thread_exceptions"]:
-        out.append(("%s/seq/exception" % PID, "after %r a thread died: %r" % (list(path), o["thread_exceptions"])))
+    unexpected = [x for x in o["thread_exceptions"] if "broken subscriber queue" not in x[2]]
+    if unexpected:
+        out.append(("%s/seq/exception" % PID, "after %r a thread died: %r" % (list(path), unexpected)))
     if o["over"]:
         out.append(("%s/seq/two-threads-of-a-kind" % PID, "during %r the live delivery threads were %r (scheduler step %d)" % (
             list(path), o["over"][0], o["over"][1])))
@@ -173,7 +200,11 @@ def judge(path, ex):
         if op[0] == "stop" and (rec["live_at_return"]["fifo"] or rec["live_at_return"]["lifo"]):
             out.append(("%s/seq/stop-left-threads" % PID, "after %r stop() returned with live delivery threads %r" % (
                 list(path[:k + 1]), rec["live_at_return"])))
-        if m["running"] and not both:
+        if m["running"] and m["fifo_dead"]:
+            if l != {"fifo": 0, "lifo": 1}:
+                out.append(("%s/seq/after-thread-death" % PID, "after %r (the fifo thread was killed by a broken subscriber) live delivery "
+                            "threads are %r" % (list(path[:k + 1]), l)))
+        elif m["running"] and not both:
             out.append(("%s/seq/not-running-after-start" % PID, "after %r the fabric should run, live delivery threads %r" % (
                 list(path[:k + 1]), l)))
         if m["ao"] == "halted" and rec["ao_finished"] is False:
